@@ -34,7 +34,18 @@ RULE = ("skeleton = text runs (space, tab, \\n, \\r\\n, \\r, letters) alternatin
         "run triples (quick: one triple per shape in rotation); 45% of the random skeletons get "
         "their blanks (partly) replaced by and their runs extended with such characters, so "
         "that '-' on the LEFT and on the RIGHT of every tag kind, lstrip_blocks, trim_blocks "
-        "and '+' all meet them in rendered output. One evaluation = "
+        "and '+' all meet them in rendered output. configuration routes: the four options reach "
+        "the environment not only through Environment(...) but through every documented route - "
+        "Environment.overlay(...) of a parent that was unused / had compiled / lexed / parsed "
+        "something, overriding all options or only the differing ones, an overlay of a used "
+        "overlay, an overlay made before its parent is first used, the PARENT after a sibling "
+        "overlay with other options was made and used, and Template(source, ...options); the "
+        "related environment carries each of the three other trim/lstrip settings in rotation: "
+        "every 1- and 2-tag shape x 3 routes (thorough: all 12) x four settings, and every second "
+        "random skeleton through a random route whose related environments also differ in "
+        "keep_trailing_newline / newline_sequence; a route case is discriminating when the "
+        "documented rules give another output under the related environment's options. "
+        "One evaluation = "
         "one render compared with the model + the non-whitespace-preservation oracle. distinct = "
         "distinct exhaustive shapes (settings x tag sequence x modifier assignment) and distinct "
         "gap contexts (settings x left neighbour kind+modifier x right neighbour kind+modifier "
@@ -99,7 +110,26 @@ FLOORS = {
                            "exotic_removed_by_lstrip:raw_close": 15,
                            "exotic_kept_by_plus": 500, "exotic_between_tag_and_newline": 350,
                            "exotic_after_trimmed_newline": 300, "exotic_in_raw_body": 350,
-                           "exotic_kept_in_output": 7000, "zero_width_space_runs": 150}},
+                           "exotic_kept_in_output": 7000, "zero_width_space_runs": 150,
+                           # configuration routes: 7692 cases are enumerated whatever the load,
+                           # the random part has >= 40 routed skeletons per shard
+                           "cases_route": 5000, "cases_route_random": 600,
+                           "oracle_route_options_reported": 700,
+                           "route_related_env_options_give_other_output": 900,
+                           "route:overlay:unused": 200, "route:overlay:compile": 200,
+                           "route:overlay:lex": 200, "route:overlay:parse": 200,
+                           "route:overlay-minimal:compile": 200,
+                           "route:overlay-minimal:lex": 200,
+                           "route:overlay-chain:compile": 200, "route:overlay-chain:parse": 200,
+                           "route:parent-after-overlay:compile": 200,
+                           "route:parent-after-overlay:lex": 200,
+                           "route:overlay-before-parent-use:compile": 200,
+                           "route:template-ctor:unused": 200,
+                           "route_discriminating:overlay": 300,
+                           "route_discriminating:overlay-minimal": 160,
+                           "route_discriminating:overlay-chain": 190,
+                           "route_discriminating:parent-after-overlay": 160,
+                           "route_discriminating:overlay-before-parent-use": 75}},
     "thorough": {"evaluations": 500000, "distinct": 10000,
                  "counters": {"renders": 500000, "oracle_model": 500000,
                               "oracle_nonws": 500000, "cases_n1": 30000, "cases_n2": 130000,
@@ -132,7 +162,25 @@ FLOORS = {
                               "exotic_between_tag_and_newline": 5000,
                               "exotic_after_trimmed_newline": 1800,
                               "exotic_in_raw_body": 4000, "exotic_kept_in_output": 40000,
-                              "zero_width_space_runs": 2400}},
+                              "zero_width_space_runs": 2400,
+                              "cases_route": 20000, "cases_route_random": 6000,
+                              "oracle_route_options_reported": 2800,
+                              "route_related_env_options_give_other_output": 3600,
+                              "route:overlay:unused": 800, "route:overlay:compile": 800,
+                              "route:overlay:lex": 800, "route:overlay:parse": 800,
+                              "route:overlay-minimal:compile": 800,
+                              "route:overlay-minimal:lex": 800,
+                              "route:overlay-chain:compile": 800,
+                              "route:overlay-chain:parse": 800,
+                              "route:parent-after-overlay:compile": 800,
+                              "route:parent-after-overlay:lex": 800,
+                              "route:overlay-before-parent-use:compile": 800,
+                              "route:template-ctor:unused": 800,
+                              "route_discriminating:overlay": 1200,
+                              "route_discriminating:overlay-minimal": 640,
+                              "route_discriminating:overlay-chain": 760,
+                              "route_discriminating:parent-after-overlay": 640,
+                              "route_discriminating:overlay-before-parent-use": 300}},
 }
 
 SETTINGS = [(False, False), (False, True), (True, False), (True, True)]
@@ -148,6 +196,7 @@ class State:
         self.ctx = ctx
         self.Environment = Environment
         self.envs = {}
+        self.routes = {}
         self.seen = set()
         self.recorded = 0
 
@@ -159,6 +208,129 @@ class State:
                 trim_blocks=tb, lstrip_blocks=ls, keep_trailing_newline=keep,
                 newline_sequence=nl, cache_size=0)
         return e
+
+    def route_compiler(self, route, target):
+        k = (route["kind"], route["warm"], tuple(route["parent"]), tuple(route["mid"] or ()),
+             tuple(target))
+        c = self.routes.get(k)
+        if c is None:
+            c, env = build_route(self.Environment, route, target)
+            self.routes[k] = c
+            if env is not None:
+                # the environment reports the requested options (public attributes)
+                self.ctx.count("oracle_route_options_reported")
+                got = tuple(getattr(env, n) for n in OPTION_NAMES)
+                if got != tuple(target):
+                    self.ctx.violation(
+                        f"config-route:{route['kind']}:{route['warm'] or 'unused'}:options-reported",
+                        f"environment obtained by {describe_route(route)} reports {got!r} for "
+                        f"{OPTION_NAMES!r}, requested {tuple(target)!r}",
+                        {"route": route, "target": list(target), "options_only": True})
+        return c
+
+
+# ---- configuration routes: HOW the environment carrying the four whitespace options came about.
+# The documented ways besides Environment(...): Environment.overlay(...) ("shares all the data
+# with the current environment except for cache and the overridden attributes") of a parent that
+# was / was not used before, overriding all or only the differing options, overlays of overlays,
+# the parent of an overlay (must keep its own options), and Template(source, ...options).
+OPTION_NAMES = ("trim_blocks", "lstrip_blocks", "keep_trailing_newline", "newline_sequence")
+ROUTES = [("overlay", None), ("overlay", "compile"), ("overlay", "lex"), ("overlay", "parse"),
+          ("overlay-minimal", "compile"), ("overlay-minimal", "lex"),
+          ("overlay-chain", "compile"), ("overlay-chain", "parse"),
+          ("parent-after-overlay", "compile"), ("parent-after-overlay", "lex"),
+          ("overlay-before-parent-use", "compile"), ("template-ctor", None)]
+ROUTE_TEXTS = ["\n  ", "a\n ", " \n ", "\n", "\n\n a", "  ", "\t\n\tb", "\r\n "]
+
+
+def _opts(s):
+    return dict(zip(OPTION_NAMES, s))
+
+
+def _diff_opts(base, target):
+    return {n: t for n, b, t in zip(OPTION_NAMES, base, target) if b != t}
+
+
+def _use(env, how):
+    """Put an environment to use through one public entry point."""
+    if how == "compile":
+        env.from_string("w{% if true %}\n  {{ m }}\n  {% endif %}\n").render(m=1)
+    elif how == "lex":
+        list(env.lex("w {# c #}\n  {% if true %}\n{% endif %}"))
+    elif how == "parse":
+        env.parse("w{% set x = 1 %}\n")
+
+
+def describe_route(route):
+    if route is None:
+        return "Environment(...)"
+    return (f"{route['kind']} (parent options {route['parent']!r}, intermediate "
+            f"{route.get('mid')!r}, environments put to use by: {route['warm'] or 'nothing'})")
+
+
+def make_route(kind, warm, target, other, other2):
+    """Route descriptor for the TARGET options; `other`/`other2` = option tuples of the
+    environments the target one is derived from / shares data with."""
+    if kind == "parent-after-overlay":
+        return {"kind": kind, "warm": warm, "parent": list(target), "mid": list(other)}
+    if kind == "overlay-chain":
+        return {"kind": kind, "warm": warm, "parent": list(other2), "mid": list(other)}
+    return {"kind": kind, "warm": warm, "parent": list(other), "mid": None}
+
+
+def build_route(Environment, route, target):
+    """source -> Template for an environment with the TARGET options obtained along `route`;
+    second value: the environment (None for Template(...))."""
+    kind, warm = route["kind"], route["warm"]
+    target = tuple(target)
+    if kind == "template-ctor":
+        from jinja2 import Template
+
+        o = _opts(target)
+        return (lambda src: Template(src, **o)), None
+    parent_opts = tuple(route["parent"])
+    parent = Environment(cache_size=0, **_opts(parent_opts))
+    if kind == "overlay-before-parent-use":
+        env = parent.overlay(**_opts(target))
+        _use(parent, warm)
+        return env.from_string, env
+    _use(parent, warm)
+    if kind == "overlay":
+        env = parent.overlay(**_opts(target))
+    elif kind == "overlay-minimal":
+        env = parent.overlay(**_diff_opts(parent_opts, target))
+    elif kind == "overlay-chain":
+        mid = parent.overlay(**_diff_opts(parent_opts, tuple(route["mid"])))
+        _use(mid, warm)
+        env = mid.overlay(**_diff_opts(tuple(route["mid"]), target))
+    elif kind == "parent-after-overlay":
+        other = parent.overlay(**_diff_opts(parent_opts, tuple(route["mid"])))
+        _use(other, warm)
+        env = parent
+    else:
+        raise ValueError(kind)
+    return env.from_string, env
+
+
+def route_coverage(st, skel, p, route, target):
+    ctx = st.ctx
+    ctx.count("cases_route")
+    ctx.count(f"route:{route['kind']}:{route['warm'] or 'unused'}")
+    # discriminating = the documented rules give ANOTHER output under the options of an
+    # environment the target one is derived from / shares data with
+    disc = False
+    for o in (route["parent"], route.get("mid")):
+        if o is None or tuple(o) == tuple(target):
+            continue
+        if M.predict(skel, *o).rendered != p.rendered:
+            disc = True
+    if disc:
+        ctx.count("route_related_env_options_give_other_output")
+        ctx.count(f"route_discriminating:{route['kind']}")
+        k = ("route", route["kind"], route["warm"], tuple(route["parent"][:2]), tuple(target[:2]))
+        if k not in st.seen:
+            st.seen.add(k)
+            ctx.dist(k)
 
 
 def exotic_coverage(ctx, p, part):
@@ -200,20 +372,31 @@ def exotic_coverage(ctx, p, part):
             ctx.count("zero_width_space_runs")
 
 
-def check_case(st, skel, tb, ls, keep=False, nl="\n", part="random", shape=None):
+def check_case(st, skel, tb, ls, keep=False, nl="\n", part="random", shape=None, route=None):
+    """route=None: the options are given to the Environment constructor; otherwise a
+    configuration-route descriptor (see ROUTES) saying how the environment that carries the
+    options came about."""
     ctx = st.ctx
     p = M.predict(skel, tb, ls, keep, nl)
     case = {"skel": skel, "tb": tb, "ls": ls, "keep": keep, "nl": nl, "source": p.source}
+    kp = ""
+    if route is not None:
+        case["route"] = route
+        kp = f"config-route:{route['kind']}:{route['warm'] or 'unused'}:"
     ctx.ev()
     ctx.count("renders")
     try:
-        got = st.env(tb, ls, keep, nl).from_string(p.source).render(G.RENDER_CONTEXT)
+        if route is None:
+            tmpl = st.env(tb, ls, keep, nl).from_string(p.source)
+        else:
+            tmpl = st.route_compiler(route, (tb, ls, keep, nl))(p.source)
+        got = tmpl.render(G.RENDER_CONTEXT)
     except Exception as e:  # a documented-syntax skeleton must render
         if st.recorded < MAX_RECORDED:
             st.recorded += 1
             kinds = "+".join(sorted({f"{t['k']}[{t['l']}|{t['r']}]" for t in skel[1::2]
                                      if t["l"] == "+" or t["r"] == "+"})) or "plain"
-            ctx.violation(f"render-raises:{type(e).__name__}:{kinds}",
+            ctx.violation(f"{kp}render-raises:{type(e).__name__}:{kinds}",
                           f"{type(e).__name__}: {e} for source {p.source!r} "
                           f"trim_blocks={tb} lstrip_blocks={ls}", case)
         return False
@@ -232,6 +415,8 @@ def check_case(st, skel, tb, ls, keep=False, nl="\n", part="random", shape=None)
             ctx.count("raw_body_cases")
     if p.removed_chars:
         ctx.count("removed_chars", p.removed_chars)
+    if route is not None:
+        route_coverage(st, skel, p, route, (tb, ls, keep, nl))
     if M.has_exotic(p.norm):
         exotic_coverage(ctx, p, "exhaustive" if part == "exotic-exhaustive" else "random")
     if shape is not None and p.nontrivial and shape not in st.seen:
@@ -249,7 +434,8 @@ def check_case(st, skel, tb, ls, keep=False, nl="\n", part="random", shape=None)
                 # the diverging run holds whitespace other than space/tab/line breaks
                 key += ":non-space-tab-ws"
             ctx.violation(
-                key,
+                kp + key,
+                (f"environment obtained by {describe_route(route)}; " if route else "") +
                 f"source {p.source!r} trim_blocks={tb} lstrip_blocks={ls} keep_trailing_newline="
                 f"{keep} newline_sequence={nl!r}: rendered {got!r}, documented rules give "
                 f"{p.rendered!r} (first divergence in the text run {g['run']!r} between "
@@ -263,7 +449,7 @@ def check_case(st, skel, tb, ls, keep=False, nl="\n", part="random", shape=None)
         if st.recorded < MAX_RECORDED:
             st.recorded += 1
             ctx.violation(
-                f"non-whitespace-changed:tb={int(tb)},ls={int(ls)}",
+                f"{kp}non-whitespace-changed:tb={int(tb)},ls={int(ls)}",
                 f"source {p.source!r}: non-whitespace of output {''.join(got.split())!r} != "
                 f"non-whitespace of the text runs {M.nonws_of_texts(skel)!r}", case)
     return ok
@@ -357,6 +543,37 @@ def run(ctx):
         ctx.sample({"part": "exotic-exhaustive", "source": M.build(G.skeleton_from(
             ("raw", "endraw"), (("-", "-"), ("-", "-")), ("a\x0c\n", "\xa0 r\n\x0b", " \u2003b")))})
 
+    # ---- part E: configuration routes.  every 1- and 2-tag shape (sequence x modifiers) x
+    # 3 routes (rotating, so every route meets every kind of shape) x all four target settings,
+    # the related environment (parent / intermediate overlay / sibling overlay) carrying each
+    # of the three OTHER trim/lstrip settings in rotation.  Never time-boxed.
+    ridx = 0
+    for n in (1, 2):
+        for seq in M.tag_sequences(n):
+            for mods in mod_products(seq):
+                idx += 1
+                ridx += 1
+                if not ctx.mine(idx):
+                    continue
+                for j in range(3 if quick else len(ROUTES)):
+                    kind, warm = ROUTES[(ridx + j * 5) % len(ROUTES)] if quick else ROUTES[j]
+                    texts = tuple(ROUTE_TEXTS[(ridx + j + 3 * t) % len(ROUTE_TEXTS)]
+                                  for t in range(n + 1))
+                    skel = G.skeleton_from(seq, mods, texts)
+                    for ti, (tb, ls) in enumerate(SETTINGS):
+                        others = [x for x in SETTINGS if x != (tb, ls)]
+                        o1 = others[(ridx + j + ti) % 3]
+                        o2 = others[(ridx + j + ti + 1) % 3]
+                        route = make_route(kind, warm, (tb, ls, False, "\n"),
+                                           o1 + (False, "\n"), o2 + (False, "\n"))
+                        check_case(st, skel, tb, ls, part="route", route=route,
+                                   shape=(tb, ls, seq, mods, "route", kind))
+    if ctx.shard == 0:
+        ctx.sample({"part": "route", "route": make_route(
+            "overlay-chain", "compile", (True, True, False, "\n"), (False, True, False, "\n"),
+            (False, False, False, "\n")), "source": M.build(G.skeleton_from(
+                ("if", "endif"), (("", ""), ("", "")), ("a\n", "\n  x\n  ", "\nb")))})
+
     # ---- part C: 3 tags.  thorough: every (sequence, modifier assignment) x settings x
     # T3 text sets; quick: the shapes are sampled (1 random text assignment each, until
     # the time share is used up)
@@ -393,6 +610,7 @@ def run(ctx):
 
     # ---- part D: random skeletons, rich runs, all four settings each
     rng = ctx.rng("random")
+    rrng = ctx.rng("routes")
     n_max = 4000 if quick else 150000
     i = 0
     while ctx.more(i, n_max, floor=80):
@@ -407,6 +625,18 @@ def run(ctx):
         for tb, ls in SETTINGS:
             check_case(st, skel, tb, ls, keep, nl)
             ctx.count("cases_random")
+        if i % 2 == 0:
+            # the same skeleton through a random configuration route; the related environments
+            # differ in any of the four options (also keep_trailing_newline / newline_sequence)
+            kind, warm = rrng.choice(ROUTES)
+            for tb, ls in SETTINGS:
+                def other():
+                    return (rrng.random() < 0.5, rrng.random() < 0.5,
+                            keep if rrng.random() < 0.6 else not keep,
+                            nl if rrng.random() < 0.6 else rrng.choice(("\n", "\r\n", "\r")))
+                route = make_route(kind, warm, (tb, ls, keep, nl), other(), other())
+                check_case(st, skel, tb, ls, keep, nl, part="route", route=route)
+                ctx.count("cases_route_random")
         if i <= 2 and ctx.shard == 0:
             ctx.sample({"part": "random", "source": M.build(skel), "keep_trailing_newline": keep,
                         "newline_sequence": nl})
@@ -414,5 +644,8 @@ def run(ctx):
 
 def replay(ctx, case):
     st = State(ctx)
+    if case.get("options_only"):
+        st.route_compiler(case["route"], tuple(case["target"]))
+        return
     check_case(st, case["skel"], case["tb"], case["ls"], case.get("keep", False),
-               case.get("nl", "\n"))
+               case.get("nl", "\n"), route=case.get("route"))
